@@ -511,6 +511,7 @@ OVERRIDES = {
     'greater': _cmpfn('gt', _np.greater), 'greater_equal': _cmpfn('ge', _np.greater_equal),
     'less': _cmpfn('lt', _np.less), 'less_equal': _cmpfn('le', _np.less_equal),
     'zeros': sym_zeros, 'ones': sym_ones, 'empty': sym_empty, 'full': sym_full,
+    'finfo': (lambda t=float: _np.finfo(float if t is sym_float else t)),
     'zeros_like': _like(0.0), 'ones_like': _like(1.0), 'empty_like': sym_empty_like,
     'sqrt': sym_sqrt, 'exp': sym_exp, 'log': sym_log, 'log10': sym_log10,
     'sin': sym_sin, 'cos': sym_cos, 'tan': sym_tan,
